@@ -377,9 +377,11 @@ def build_field(codec, f):
             kw["len"] = f["len"]
         o = codec.Spare(f["name"], **kw)
     elif k == "bitset":
-        bfs = tuple(codec.BitField.Spare(bl=b["bl"]) if b["name"] == "" else
-                    codec.BitField(b["name"], bl=b["bl"], **({"val": untyped(b["val"])} if b["fixed"] else {}))
-                    for b in f["fields"])            # fresh BitField objects for every set
+        # fresh BitField objects for every set; the tuple is allocated the way a literal in a class body
+        # is (exact size at once), so that definitions built one after the other meet recycled objects
+        bfs = tuple([codec.BitField.Spare(bl=b["bl"]) if b["name"] == "" else
+                     codec.BitField(b["name"], bl=b["bl"], **({"val": untyped(b["val"])} if b["fixed"] else {}))
+                     for b in f["fields"]])
         kw = {}
         okw = f.get("okw", "lsb" if f["order"] == "lsb" else "")
         if okw:
